@@ -22,8 +22,9 @@ CFG = dict(
         'code size, number of constants, locals and call-argument records stay below 65536 (u16 operands)',
         'well-typed input: every theorem is conditional on the reference evaluation not taking a branch where '
         'the Rust code would panic (operand of the wrong kind, wrong arity)',
-        'function names are not redefined while a function value of that name is alive (otherwise numbat calls '
-        'the newest definition: known finding C09-fnvalue-late-binding)',
+        'a function value carries the chunk index of the definition that was current when the reference was created '
+        '(the late binding by name of the pinned code — `let g = f`, a redefinition of `f`, `g(1)` called the new `f` — '
+        'was a defect found by this check and repaired in numbat; the reference semantics, the VM model and the proofs follow)',
     ],
 )
 
